@@ -94,3 +94,22 @@ Proof. exact (@AllocTotal.multistage_terminates). Qed.
 Print Assumptions C02_multistage_terminates.
 End M_C02_multistage_terminates.
 
+(* completeness (Mixed, both planner paths): within N (N + 3) + N + 2 requests the schedule is exhausted (EndReverse has been emitted, by C09_flags), and by then exactly C N S forward steps have been executed *)
+Module M_C02_mixed_terminates.
+Import MixBridge.
+Theorem C02_mixed_terminates :
+  forall (N s : Z) (sg : Actions.storage) (tab : bool) (k : nat),
+         1 <= N ->
+         0 <= s ->
+         (2 <= N -> 1 <= s) ->
+         sg = Actions.RAM \/ sg = Actions.DISK ->
+         N * (N + 3) + N + 1 < Z.of_nat k ->
+         let
+         '(s', m, _) :=
+          Sched.run_ops (pmx N (Z.min s (N - 1)) sg) (sch0 N (Z.min s (N - 1)) sg tab) Sched.mon0
+            (repeat Sched.Next k) in
+          Sched.is_exhausted s' = true /\ Exec.fwd_total (Exec.cnt (Sched.mx m)) = C3 N (Z.min s (N - 1)).
+Proof. exact (@MixBridge.mixed_terminates). Qed.
+Print Assumptions C02_mixed_terminates.
+End M_C02_mixed_terminates.
+
